@@ -247,8 +247,23 @@ class FlowGen(object):
             self.line([("if", ("bin", "=", ("var", r.choice(VARS)), n(r.randint(0, 6))),
                         ("stmts", [self.mark(), (r.choice(["end", "stop"]),)]), [], None)])
 
+    def tiny_loop(self):
+        """Bounds and step far below 1: FOR T=0 TO 9.5E-7 STEP 2.5E-7 runs four times (a step that is emitted as 0 never
+        ends), and IF D>0 sees a positive number.  The marks print other variables: how such numbers PRINT is C01's."""
+        r = self.r
+        self.approx = True              # such numbers are outside the reference's exact domain (multiples of 1/64)
+        v = self.loop_vars[self.depth_for]
+        k = r.choice([1, 2.5, 5])
+        e = r.choice([5, 7, 9])
+        step = ("num", k * 10.0 ** -e, ["%sE-%d" % (("%g" % k), e)])
+        lim = ("num", 3.8 * k * 10.0 ** -e, ["%gE-%d" % (3.8 * k, e)])
+        self.line([("let", ("var", "D"), step, False), ("for", v, n(0), lim, ("var", "D") if r.random() < 0.5 else step), self.mark(), ("next", [v])])
+        self.line([("if", ("bin", ">", ("var", "D"), n(0)), ("stmts", [self.mark()]), [], ("stmts", [self.mark()]))])
+
     def for_loop(self, depth):
         r = self.r
+        if self.depth_for == 0 and r.random() < 0.06:
+            return self.tiny_loop()
         v = self.loop_vars[self.depth_for]
         self.depth_for += 1
         step = r.choice([None, None, n(1), n(2), ("un", "-", n(1)), n(0.5), ("un", "-", n(0.5))])
@@ -396,9 +411,15 @@ def stream(events):
     return out
 
 
-def compare(prog, optsets, hyp_for=False):
+def compare(prog, optsets, hyp_for=False, approx=False):
     text = render(prog)
-    cb = harness.run_cb(prog, budget=3000)
+    from ..cbref import interp as cbi
+
+    cbi.APPROX[0] = bool(approx)
+    try:
+        cb = harness.run_cb(prog, budget=3000)
+    finally:
+        cbi.APPROX[0] = False
     res = {"text": text, "cb": cb["status"], "problems": [], "zero_trip": cb.get("zero_trip")}
     if cb["status"] != "ok":
         return res
@@ -443,7 +464,7 @@ def run_case(case):
     from ..gen import progtools
 
     obs["key"] = progtools.prog_key(prog) + "|" + str(sorted(val.items()))
-    r = compare(prog, OPTS)
+    r = compare(prog, OPTS, approx=getattr(g, "approx", False))
     if r["cb"] != "ok":
         obs["nontrivial"] = False
         obs["counters"]["source_" + r["cb"]] = 1
@@ -471,7 +492,7 @@ def run_case(case):
         if g.has_elif_noelse and r["zero_trip"]:
             attempts.append(("C02/for/zero-trip", add_else(prog), True))
         for sig, p2, hyp in attempts:
-            r2 = compare(p2, [o], hyp_for=hyp)
+            r2 = compare(p2, [o], hyp_for=hyp, approx=getattr(g, "approx", False))
             if r2["cb"] == "ok" and not [p for p in r2["problems"] if p[0] not in ("refused", "internal")]:
                 obs["viols"].append({"sig": sig, "detail": detail})
                 return obs
